@@ -112,6 +112,7 @@ var registry = map[string]*PropDef{
 	"C09": {
 		Harnesses: []HarnessDef{
 			{Pkg: "cmd", Func: "VP_C09_Restore", Quick: map[string]int{"tracked": 2, "depth": 2, "complen": 2, "deepcomplen": 1}, Thorough: map[string]int{"tracked": 2, "depth": 2, "complen": 2}, Share: 1.00},
+			{Pkg: "cmd", Func: "VP_C09_RestoreMulti", Quick: map[string]int{}, Thorough: map[string]int{}, Share: 1.00},
 			{Pkg: "cmd", Func: "VP_C09_RestoreStaged", Quick: map[string]int{"files": 1, "depth": 2, "complen": 1}, Thorough: map[string]int{"files": 2, "depth": 2, "complen": 1}, Share: 1.00},
 		},
 		QuickBudget: 10 * time.Minute, ThoroughBudget: 45 * time.Minute, Assumptions: commonAssumptions,
@@ -200,6 +201,7 @@ var registry = map[string]*PropDef{
 			{Pkg: "internal/store", Func: "VP_C19_RefsLoad", Quick: map[string]int{"n": 5}, Thorough: map[string]int{"n": 10}, Share: 1.00},
 			{Pkg: "internal/store", Func: "VP_C19_MutatedFiles", Quick: map[string]int{}, Thorough: map[string]int{}, Share: 1.00},
 			{Pkg: "internal/object", Func: "VP_C19_MutatedObjects", Quick: map[string]int{}, Thorough: map[string]int{}, Share: 1.00},
+			{Pkg: "cmd", Func: "VP_C19_BranchFileCli", Quick: map[string]int{"stray": 1}, Thorough: map[string]int{"stray": 2}, Share: 1.00},
 			{Pkg: "internal/store", Func: "VP_C19_ReflogLoad", Quick: map[string]int{"n": 5}, Thorough: map[string]int{"n": 9}, Share: 1.00},
 		},
 		QuickBudget: 10 * time.Minute, ThoroughBudget: 45 * time.Minute, Assumptions: commonAssumptions,
